@@ -16,6 +16,7 @@ func main() {
 		NQuick:    400,
 		NThorough: 6000,
 		Corpus:    corpus,
+		VM:        true,
 	})
 }
 
